@@ -52,7 +52,7 @@ fn parts_for(id: &str) -> Option<(&'static str, Vec<Box<dyn DynPart>>, Vec<Strin
         "C10" => ("C10", c10::parts(), none),
         "C11" => ("C11", c11::parts(), none),
         "C12" => ("C12", c12::parts(), none),
-        "C13" => ("C13", c13::parts(), none),
+        "C13" => ("C13", c13::parts_all(), none),
         "C14" => ("C14", c14::parts(), none),
         "C15" => ("C15", c15::parts_all(), none),
         "C16" => ("C16", c16::parts(), none),
@@ -87,7 +87,7 @@ fn main() {
             let id = args[2].as_str();
             let mut tier = std::env::var("VERIF_TIER").unwrap_or_else(|_| "quick".into());
             let mut only_part: Option<String> = None;
-            let mut external: Option<String> = None;
+            let mut external: Vec<String> = vec![];
             let mut i = 3;
             while i < args.len() {
                 match args[i].as_str() {
@@ -101,7 +101,7 @@ fn main() {
                     },
                     "--worker" => i += 1,
                     "--external" => {
-                        external = Some(args.get(i + 1).cloned().unwrap_or_else(|| usage()));
+                        external.push(args.get(i + 1).cloned().unwrap_or_else(|| usage()));
                         i += 2;
                     },
                     _ => usage(),
@@ -147,12 +147,12 @@ fn main() {
                     break;
                 }
             }
-            if let Some(path) = external {
+            for path in external {
                 if let Ok(text) = std::fs::read_to_string(&path) {
                     if let Ok(v) = serde_json::from_str::<serde_json::Value>(&text) {
                         if v["property"].as_str() == Some(sid) {
-                            report.external = v["parts"].as_array().cloned().unwrap_or_default();
-                            report.external_wall_s = v["wall_s"].as_f64().unwrap_or(0.0);
+                            report.external.extend(v["parts"].as_array().cloned().unwrap_or_default());
+                            report.external_wall_s += v["wall_s"].as_f64().unwrap_or(0.0);
                         }
                     }
                 }
